@@ -1,7 +1,7 @@
 CONSTANTS
-  SheetIdx = {0, 5, 10, 12, 15, 20, 25, 30, 35, 37, 40, 45, 50, 55, 60, 65, 70, 75, 80, 85, 90, 95, 100, 105, 110, 115, 120, 125, 130, 134, 135, 140, 145, 146, 150, 155, 160, 165, 170, 175, 180, 185, 190, 195, 200, 205, 210, 215, 220, 225, 230, 235, 240, 241, 245, 250, 252, 255, 260, 265, 270, 275, 277, 280, 285, 290, 295, 300, 305, 310, 315, 320, 325, 330, 335, 340, 345, 350, 355, 360, 364, 365, 370, 375, 380, 385, 390, 395, 400, 405, 410, 415, 420, 422, 425, 430, 435, 440, 445, 450, 455, 460, 465, 470, 475, 480, 485, 490, 495, 500, 505, 510, 515, 520, 525, 530, 535, 540, 545, 550, 555, 560, 565, 570, 575, 580, 585, 590, 595, 600, 605, 610, 615, 620, 625, 630, 635, 640, 645, 650, 655, 660, 665, 670}
-  NSeed = 6
+  SheetIdx = {0, 13, 26, 31, 39, 42, 52, 65, 78, 91, 104, 117, 130, 143, 153, 156, 166, 169, 182, 188, 195, 208, 221, 234, 247, 260, 273, 275, 286, 288, 299, 312, 316, 325, 338, 351, 364, 377, 390, 403, 416, 429, 442, 455, 468, 481, 482, 494, 507, 520, 533, 546, 559, 572, 585, 598, 611, 624, 637, 650, 663, 676, 689, 702, 715, 728, 741, 754, 767}
+  NSeed = 4
   ScanMod = 3
 INIT Init
 NEXT Next
-INVARIANTS PlantedThm SymmetryThm ScanThm SafetyThm ModeThm Export
+INVARIANTS PlantedThm InterleavedThm SymmetryThm ScanThm ShortcutThm SafetyThm ModeThm Export
